@@ -105,8 +105,10 @@ def do_OP_CHECKLOCKTIMEVERIFY(vm: Any) -> None:
         raise ScriptError("empty stack on CHECKLOCKTIMEVERIFY")
     if len(vm.stack[-1]) > 5:
         raise ScriptError("script number overflow")
+    # the operand stays on the stack exactly as it was pushed
+    operand = vm[-1]
     max_lock_time = vm.pop_int(max_size=5)
-    vm.push_int(max_lock_time)
+    vm.append(operand)
     if max_lock_time < 0:
         raise ScriptError("top stack item negative on CHECKLOCKTIMEVERIFY")
     era_max = max_lock_time >= 500000000
@@ -150,8 +152,10 @@ def do_OP_CHECKSEQUENCEVERIFY(vm: Any) -> None:
         )
     if len(vm.stack[-1]) > 5:
         raise ScriptError("script number overflow", errno.INVALID_STACK_OPERATION + 1)
+    # the operand stays on the stack exactly as it was pushed
+    operand = vm[-1]
     sequence = vm.pop_int(max_size=5)
-    vm.push_int(sequence)
+    vm.append(operand)
     if sequence < 0:
         raise ScriptError(
             "top stack item negative on CHECKSEQUENCEVERIFY", errno.NEGATIVE_LOCKTIME
